@@ -25,13 +25,17 @@ def instances(tier):
         out.append((T, 'VH_C05_loadLabel_vs_spec', [m, 1, 2 + lb + 3], {'weight': 10}))
     for cp in ([0, 3, 7] if tier == 'quick' else list(range(0, 8))):
         out.append((T, 'VH_C05_dict_int8', [cp], {'weight': 400}))
+    for cp in ([0, 3, 7] if tier == 'quick' else list(range(0, 8))):
+        out.append((T, 'VH_C05_hashmap_aug', [cp], {'weight': 50}))
+    for (a, b) in ([(0, 3), (5, 2), (6, 7), (2, 5)] if tier == 'quick' else [(a, b) for a in range(8) for b in range(8) if a != b]):
+        out.append((T, 'VH_C05_dict_three', [a, b], {'weight': 100}))
     return out
 
 
 CHECK = dict(
     id='C05', pkgs=['tlb'], init_pkgs=['std:io', 'boc', 'tlb'], instances=instances, opts={'budget_s': 2400, 'unwind': 1100, 'hash_injective': True},
-    level_text='Label codec of Hashmap edges: loadLabel/loadLabelSize are executed on ARBITRARY cell bits and compared with a specification parser of HmLabel (short, long, same) on (length, bits, bits consumed, rejection); encodeLabel+loadLabel round trip for every pair of keys of the stated widths including the 7/8-bit short/long boundary; dictionary round trip HashmapE[Int8,Uint8] with two symbolic keys of any signs through Put (both insertion orders), Marshal, Unmarshal: same pairs, ascending key-bit order, Get agrees, identical cell for both insertion orders.',
+    level_text='Label codec of Hashmap edges: loadLabel/loadLabelSize are executed on ARBITRARY cell bits and compared with a specification parser of HmLabel (short, long, same) on (length, bits, bits consumed, rejection); encodeLabel+loadLabel round trip for every pair of keys of the stated widths including the 7/8-bit short/long boundary; dictionary round trip HashmapE[Int8,Uint8] with two symbolic keys of any signs through Put (both insertion orders), Marshal, Unmarshal: same pairs, ascending key-bit order, Get agrees, identical cell for both insertion orders.  Dictionary level: two signed 8-bit keys (all values, both insertion orders) and three unsigned 8-bit keys (tree shape fixed per instance by the common-prefix lengths of neighbouring keys, two insertion orders) are built with the real Put/Marshal, give the same cell hash whatever the order, and decode to exactly the pairs in ascending key-bit order with agreeing Get (present and absent keys); an augmented dictionary written by hand from block.tlb (ahm_edge / ahmn_fork / ahmn_leaf, long labels, two keys with a symbolic common prefix) decodes to its keys, values and tree of extras.',
     level_note='Bounds: remaining key size m in evidence.bounds, every cell length up to the longest valid label + 2; wide keys only for the same-bit form. Dictionary-level round trip (Put/Marshal/Unmarshal) needs the reflection codec: see DESIGN for status.',
     bounds={'quick': {'m': [1, 2, 3, 7, 8, 9, 15, 16], 'wide m (same form)': [65, 72]}, 'thorough': {'m': '1..32', 'wide m': [64, 65, 72, 80, 96, 128]}},
-    outside_claim=['N > 4 entries', 'HashmapAug* encoders', '512-bit keys except the same-bit label form'],
+    outside_claim=['more than 3 entries', 'byte-string and address keys at dictionary level', 'HashmapAug* encoders (not implemented in the library)', '512-bit keys except the same-bit label form'],
 )
